@@ -124,12 +124,24 @@ type c20World struct {
 var c20Price = big.NewInt(1_000_000_000_000)
 
 // candidate oracle pairs for whitelist edits
-var c20Pairs = []asset.Pair{"ubtc:uusd", "ueth:uusd", "uatom:uusd", "unibi:uusd", "uusdc:uusd"}
+// (arbitrary VALID strings, not only the lower-case defaults: IBC vouchers with upper-case hex, mixed case,
+// punctuation — everything sdk.ValidateDenom accepts can be whitelisted through MsgEditOracleParams)
+var c20Pairs = []asset.Pair{"ubtc:uusd", "ibc/27394FB092D2ECCD56123C74F36E4C1F926001CEADA9CA97EA622B25F41E5EB2:uusd",
+	"uATOM:uusd", "unibi:UUSD", "WBTC-1.e_x:uusd", "ueth:uusd"}
+
+// sub-denominations, bank coin denoms and an extra epoch identifier in the same spirit
+var c20Subdenoms = []string{"sub0", "Sub1", "SUB.2-x", "s_U:b3"}
+var c20CoinDenoms = []string{"ucoin0", "ibc/C4CFF46FD6DE35CA4CF4CE031E643C8FDC9BA4B99AE598E9B0ED98FE3A2319F9", "Coin2X", "uCOIN.3-b", "ucoin4", "WETH_5"}
+
+const c20ExtraEpoch = "Quarter Hour/15-Min" // identifiers are free-form strings
 
 func c20Genesis(emptyWhitelist bool) app.GenesisState {
 	enc := app.MakeEncodingConfig()
 	gen := app.GenesisState{}
-	gen[epochstypes.ModuleName] = enc.Codec.MustMarshalJSON(epochstypes.DefaultGenesisFromTime(GenesisTime))
+	eg := epochstypes.DefaultGenesisFromTime(GenesisTime)
+	eg.Epochs = append(eg.Epochs, epochstypes.EpochInfo{Identifier: c20ExtraEpoch, StartTime: GenesisTime, Duration: 15 * time.Minute,
+		CurrentEpochStartTime: GenesisTime})
+	gen[epochstypes.ModuleName] = enc.Codec.MustMarshalJSON(eg)
 	og := oracletypes.DefaultGenesisState()
 	og.Params.VotePeriod = c20VotePeriod
 	og.Params.MinVoters = 1
@@ -155,7 +167,7 @@ func newC20World(t *testing.T, emptyWhitelist bool) *c20World {
 	w.caddr = sdk.AccAddress(w.cosmos.PubKey().Address())
 	coins := Unibi(1e15)
 	for i := 0; i < 6; i++ {
-		d := fmt.Sprintf("ucoin%d", i)
+		d := c20CoinDenoms[i]
 		coins = coins.Add(sdk.NewCoin(d, sdkmath.NewInt(1_000_000)))
 		c.App.BankKeeper.SetDenomMetaData(c.Ctx(), bank.Metadata{
 			DenomUnits: []*bank.DenomUnit{{Denom: d, Exponent: 0}}, Base: d, Display: d, Name: d, Symbol: strings.ToUpper(d),
@@ -347,7 +359,7 @@ func (w *c20World) apply(op c20Op) {
 	case "tf_create": // user A creates subdenom B
 		w.block(5*time.Second, func(ctx sdk.Context) {
 			u := w.user(op.A)
-			resp, err := c.App.TokenFactoryKeeper.CreateDenom(ctx, &tftypes.MsgCreateDenom{Sender: u.String(), Subdenom: fmt.Sprintf("sub%d", abs(op.B)%4)})
+			resp, err := c.App.TokenFactoryKeeper.CreateDenom(ctx, &tftypes.MsgCreateDenom{Sender: u.String(), Subdenom: c20Subdenoms[abs(op.B)%4]})
 			if w.note(err) {
 				w.tfDenoms = append(w.tfDenoms, resp.NewTokenDenom)
 			}
